@@ -57,6 +57,8 @@ def _run_instance(task):
                 raise
             except Exception as e:
                 # an exception escaping the harness is a violation candidate (replayed before it is reported)
+                if _where(e) == '?':
+                    raise ctxmod.HarnessBug('exception raised outside /repo code: %s' % traceback.format_exc()[-1200:])
                 ex.fail('uncaught:%s' % type(e).__name__, detail=''.join(traceback.format_exception_only(type(e), e))[:300]
                         + ' @ ' + _where(e))
         ex = core.Explorer(run, max_paths=inst.get('max_paths', 200000),
